@@ -88,6 +88,18 @@ CLAIMED = {
        "harness. Known findings: sample rate 0 accepted by sf_format_check only; IRCAM float32 rate field at 2^31-1.",
   technique="Coq proof over a decision list regenerated from the source (translator) + reduction-to-representatives theorem + complete grid enumeration",
   design_ref="DESIGN.md section 5 C10"),
+ "C13": dict(
+  text="Theorems (Coq) over Chunks.v, the model of src/chunk.c: after any number of sf_set_chunk / parsed chunks the used part of a table never exceeds "
+       "its allocation and the slot written lies inside it (induction over the list, capacities 20 -> 31 -> 48 -> ...); chunks are kept in order and "
+       "none is dropped at a growth step; the stored payload is the caller's bytes zero-padded to the 4-byte alignment; iteration over all chunks "
+       "visits indices 0..used-1 exactly once in order then ends; iteration by id visits exactly the chunks whose hash equals the id's, each once, in "
+       "order; sf_get_chunk_data copies min(datalen, length) bytes. Tie: K correspondence of chunk.c called directly (histories of 0..230 operations, "
+       "ids of 1..80 characters, abandoned iterations) against the extracted model + API oracle through WAV, RF64, AIFF, CAF with 0..200 chunks, "
+       "short buffers under guard bands, late chunks, audio intact.",
+  note="Trusted: Coq kernel, hand-written model Chunks.v (tied by K on every run), extraction, harnesses. The container chunk walkers are covered by the API "
+       "oracle only. Seven defects found here were repaired by fix: commits (see known_findings.json); known finding: 64 KiB header capacity.",
+  technique="Coq proof (induction over chunk lists, iteration by fuel) + differential K correspondence on chunk.c + API-level oracle",
+  design_ref="DESIGN.md section 5 C13"),
 }
 
 
